@@ -90,6 +90,7 @@ type PredDecl struct {
 	Body   Expr
 	Src    string
 	Rec    bool
+	Uninterp bool // declared without a body
 	File   string
 	Line   int
 	Pkg    string
@@ -532,10 +533,13 @@ func parsePred(s string) (*PredDecl, error) {
 		}
 	}
 	eq := strings.Index(s[j:], "=")
+	uninterp := false
 	if eq < 0 {
-		return nil, fmt.Errorf("pred needs '= expr'")
+		// no body: an uninterpreted spec function (only assumed contracts and axioms say anything about it)
+		uninterp = true
+		eq = len(s) - j
 	}
-	pd := &PredDecl{Name: strings.TrimSpace(s[:i])}
+	pd := &PredDecl{Name: strings.TrimSpace(s[:i]), Uninterp: uninterp}
 	for _, p := range strings.Split(s[i+1:j], ",") {
 		p = strings.TrimSpace(p)
 		if p == "" {
@@ -560,6 +564,9 @@ func parsePred(s string) (*PredDecl, error) {
 		return nil, err
 	}
 	pd.Result = ty
+	if uninterp {
+		return pd, nil
+	}
 	pd.Src = strings.TrimSpace(s[j+eq+1:])
 	e, err := ParseExpr(pd.Src)
 	if err != nil {
